@@ -146,6 +146,18 @@ def c05(tier):
             ntr += 1
             if len(ck.samples) < 3 and f["k"] > 2:
                 ck.sample(cid)
+        for f in (r.get("busy") or []):
+            if not f["hit"]:
+                continue
+            ck.evaluations += 1
+            cid = {"case": c, "statement_meeting_a_lock_conflict": f["k"], "before": f["before"], "observed": f["after"], "ok": f["ok"], "status": f["status"],
+                   "expected_if_applied": want_after, "statements_executed": f["nstmts"]}
+            if f["ok"] and f["after"] != want_after:
+                ck.violation("after a lock conflict on statement %d the request reported success but was not applied completely" % f["k"], cid)
+            elif not f["ok"] and f["after"] != f["before"]:
+                ck.violation("after a lock conflict on statement %d the request reported an error but was partially applied" % f["k"], cid)
+            if f["nstmts"] > r["nstmts"]:
+                ck.nontrivial.add((c["id"], "busy", f["k"]))
     missing = [c["id"] for c in cs if c["id"] not in seen]
     if missing:
         raise Inconclusive("cases not executed: %s" % missing[:5])
